@@ -85,6 +85,8 @@ var (
 		":1s", "1s", "sz=:5kb", ":2kb",
 		// a key-restricted expression whose value part contains '=' itself (the key ends at the first '=')
 		"k=v=w", "k=v=.*", "k=.*=w",
+		// anchored expressions on a key that may hold several values: each value is matched on its own
+		"k=^w$", "k=^v$", "k=w$", "k=^v", "k=^v.w$",
 	}
 	tagValsSmall = []string{"v", "k=v", "v,w", "k=v,w", "k:v", "5", "2:8", "n=2:8", "sz=5kb", "1b:2kb", ":3ms"}
 	tagKeyRx     = []string{"k", "j", "n", "sz", "k|n", "^.$", "x"}
